@@ -8,23 +8,28 @@ def job(name, enforce, replace=(), props=('C05',), **kw):
     d = dict(name=name, entry='h_' + name, enforce=enforce, replace=list(replace), props=list(props))
     d.update(kw)
     return d
+AFACT = [('PLUS', 'plus'), ('MINUS', 'minus'), ('MULT', 'mult'), ('DIV', 'div'), ('MOD', 'mod'), ('MAXIMUM', 'max'), ('MINIMUM', 'min'), ('DISTMIN', 'distmin')]
+def afile(op):
+    return 'src/operations/arith_%s.cc' % op
 UNIT = {
     'name': 'cmpfac',
     'enums': [('src/policies.h', 'edge_labeling'), ('src/rangeval.h', 'range_type'), ('src/edge_value.h', 'edge_type')],
     'classes': dict([('binary_operation', {'opaque': True}),
-                     ('forest', {'file': FH, 'fields': ['rangeType', 'edgeLabel', 'the_edge_type']})] + [(f + '_factory', {'opaque': True}) for f, _ in FACT]),
+                     ('forest', {'file': FH, 'fields': ['rangeType', 'edgeLabel', 'the_edge_type']})] + [(f + '_factory', {'opaque': True}) for f, _ in FACT + AFACT]),
     'foreign': {'isMultiTerminal': {'*': 'forest'}, 'isEVTimes': {'*': 'forest'}, 'isEVPlus': {'*': 'forest'}, 'getRangeType': {'*': 'forest'}, 'getEdgeType': {'*': 'forest'}},
     'text_subst': [
         (r'new compare_mt<(\w+?)_mt<(\w+)> >\s*\(a,b,c\)', r'verif_new_compare_mt(CMPOP_\1, TY_\2, a, b, c)', C),
         (r'new compare_ev<EdgeOp_(\w+)<(\w+)>,\s*ev(\w+)_factor<(\w+)>,\s*(\w+?)_ev(\w+)<(\w+)> >\s*\(a,b,c\)', r'verif_new_compare_ev(EOP_\1, TY_\2, FAC_\3, TY_\4, CMPOP_\5, LAB_\6, TY_\7, a, b, c)', C),
-    ],
-    'extra_free': {'verif_new_compare_mt': 'verif_new_compare_mt', 'verif_new_compare_ev': 'verif_new_compare_ev'},
+    ] + [(r'new arith_(\w+)<EdgeOp_(\w+?)(?:<(\w+)>)?,\s*(mt|evplus|evstar)_(\w+)<(\w+)>\s*>\s*\(a,b,c\)', r'verif_new_arith(TPL_\1, EOP_\2, TY_\3, ALAB_\4, AOP_\5, TY_\6, a, b, c)', afile(op)) for _, op in AFACT],
+    'extra_free': {'verif_new_compare_mt': 'verif_new_compare_mt', 'verif_new_compare_ev': 'verif_new_compare_ev', 'verif_new_arith': 'verif_new_arith'},
     'functions': [
         dict(cls='forest', name='isMultiTerminal', file=FH), dict(cls='forest', name='isEVTimes', file=FH), dict(cls='forest', name='isEVPlus', file=FH),
         dict(cls='forest', name='getRangeType', file=FH), dict(cls='forest', name='getEdgeType', file=FH),
-    ] + [dict(cls=f + '_factory', name='build_new', file=C, where='out', static=True, cname=f + '_factory__build_new', fires={'R9subst': 6}) for f, _ in FACT],
+    ] + [dict(cls=f + '_factory', name='build_new', file=C, where='out', static=True, cname=f + '_factory__build_new', fires={'R9subst': 6}) for f, _ in FACT]
+      + [dict(cls=f + '_factory', name='build_new', file=afile(op), where='out', static=True, cname=f + '_factory__build_new') for f, op in AFACT],
     'stubs': ['`new compare_mt<X_mt<T> >(a,b,c)` and `new compare_ev<EdgeOp_E<T1>, evE_factor<T2>, X_evL<T3> >(a,b,c)` are mapped (text_subst, must fire 6 times per factory) to ghost constructors recording X, E, L and the types'],
     'assumptions': ['only the choice of instance; the instances themselves (compare_mt / compare_ev recursion) are not under contract, their scalar kernels are in U-arith'],
-    'unverified_surroundings': {'C05': ['the other operation factories (arithmetic, set algebra, copy, ...)']},
-    'jobs': [job('%s_factory' % c, '%s_factory__build_new' % f, ['verif_new_compare_mt', 'verif_new_compare_ev'], defines=['FAC_CMP=CMPOP_%s' % c]) for f, c in FACT],
+    'unverified_surroundings': {'C05': ['the other operation factories (set algebra, copy, ...)']},
+    'jobs': [job('%s_factory' % c, '%s_factory__build_new' % f, ['verif_new_compare_mt', 'verif_new_compare_ev'], defines=['FAC_CMP=CMPOP_%s' % c]) for f, c in FACT]
+          + [job('%s_factory' % op, '%s_factory__build_new' % f, ['verif_new_arith'], defines=['FAC_AOP=AOP_%s' % op]) for f, op in AFACT],
 }
